@@ -1301,7 +1301,7 @@ MX_PREFIXES = {
     "none": "",
     "closure-bound": "k1 = (n) => n * 2\n",
     "closure-passed": "k2 = app((n) => n + 1, q0)\n",
-    "closure-nested": "k3 = (n) => app((m) => m + n, n)\n",
+    "closure-nested": "k3 = (n) => app((m) => m * 2, n)\n",
     "closure-called": "k4 = ((n) => n + 1)(q0)\n",
     "closure-in-block": "if q0 > 0:\n    k5 = (n) => n - 1\n",
     "listcomp": "l1 = [x * x for x in range(q0)]\n",
